@@ -68,7 +68,21 @@ def run_unit(u, tier):
     out = {'unit': u.name, 'model': u.model, 'path': path, 'passes': {}, 'failures': [], 'infra': [],
            'functions': u.functions, 'assumed': u.assumed, 'inlined_r18': sorted(set('%s <- %s' % x for x in (u.inliner.log if getattr(u, 'inliner', None) else []))), 'trusted_prelude_items': n_pre, 'n_lemmas': len(u.lemma_texts), 'n_poly': len(u.poly_texts)}
     with cf.ThreadPoolExecutor(max_workers=2) as ex:
-        futs = {w: ex.submit(driver.run_verus, path, w, 8, getattr(u, 'verus_extra', {}).get(w, ())) for w in passes}
+        def run_pass(w):
+            # a pass that runs out of time (or of resources on a lemma) under the default solver seed is repeated under two
+            # other seeds before it counts as undecided: nonlinear queries are seed-sensitive, the outcome 'verified' is not
+            extra = tuple(getattr(u, 'verus_extra', {}).get(w, ()))
+            res = driver.run_verus(path, w, 8, extra, timeout=(240 if w == 'B' else None))
+            for sd in (1, 5):
+                lowres = (res['raw_err'] or '').lower()
+                unstable = res['rc'] == 124 or (w == 'B' and any(k in lowres for k in ('rlimit', 'resource limit')))
+                if not unstable:
+                    break
+                res2 = driver.run_verus(path, w, 8, extra + ('--smt-option', 'smt.random_seed=%d' % sd))
+                res2['cmd'] = res['cmd'] + ' ; (timed out / resource limit: repeated) ' + res2['cmd']
+                res = res2
+            return res
+        futs = {w: ex.submit(run_pass, w) for w in passes}
         for w, fu in futs.items():
             res = fu.result()
             fails, infra = driver.classify(u, res, path)
